@@ -345,6 +345,56 @@ Proof.
 Qed.
 
 (* ------------------------------------------------------------------ *)
+(* the request body built from the callbacks                           *)
+(* ------------------------------------------------------------------ *)
+
+Lemma body_valued : forall ps log,
+  filter valued_item (body_of ps log) =
+  filter valued_item (map (fun c : call => (fst (fst c), snd c)) log).
+Proof.
+  intros ps. induction log as [|c log IH]; simpl; [reflexivity|].
+  unfold body_of in *. simpl. rewrite filter_app, IH. unfold body_item.
+  destruct c as [[n i] [v|]]; simpl.
+  - reflexivity.
+  - destruct (i || opt_of ps n); reflexivity.
+Qed.
+
+Lemma spec_calls_names : forall b t i,
+  map (fun c : call => (fst (fst c), snd c)) (spec_calls i t b) =
+  map (fun n => (n, bound b n)) (names t).
+Proof.
+  intros b. induction t as [n o | j c ks IH] using pt_ind'; intro i; simpl; [reflexivity|].
+  induction ks as [|k ks IHks]; simpl; [reflexivity|].
+  inversion IH as [|? ? Hk Hks]; subst.
+  rewrite !map_app, Hk, (IHks Hks). reflexivity.
+Qed.
+
+Lemma assoc_bound : forall (b : list (nat * value)), nodup (map fst b) = true ->
+  b = map (fun n => (n, bound b n)) (map fst b).
+Proof.
+  induction b as [|[k v] b IH]; simpl; intro N; [reflexivity|].
+  apply andb_true_iff in N as [N1 N2]. apply negb_true_iff in N1.
+  unfold bound at 1. simpl. rewrite Nat.eqb_refl. f_equal.
+  rewrite (IH N2) at 1. apply map_ext_in. intros n Hn.
+  unfold bound. simpl.
+  destruct (Nat.eqb k n) eqn:E; [|reflexivity].
+  apply Nat.eqb_eq in E. subst n. apply mem_In in Hn. congruence.
+Qed.
+
+Lemma request_carries_bound_values_l : forall extra t args kw,
+  wf t = true -> kw_distinct kw = true ->
+  is_ok (fst (parse_args extra (flatten [] t) args kw)) = true ->
+  filter valued_item (body_of (flatten [] t) (snd (parse_args extra (flatten [] t) args kw))) =
+  filter valued_item (bind (names t) args kw).
+Proof.
+  intros extra t args kw W K OK. destruct (wf_parts t W) as [_ Wn].
+  rewrite (callback_once_in_order_l extra t args kw W K OK).
+  rewrite body_valued, spec_calls_names.
+  pose proof (assoc_bound (bind (names t) args kw)) as A.
+  rewrite bind_keys in A. rewrite <- (A Wn). reflexivity.
+Qed.
+
+(* ------------------------------------------------------------------ *)
 (* rpc bindings                                                        *)
 (* ------------------------------------------------------------------ *)
 
